@@ -483,6 +483,7 @@ def run(ctx):
             tol=tolw, maxit=60, src_scale=1.0, clevel=-1,
             src_norm=float(np.sqrt(5e-33/tolw)*10**rngw.uniform(-0.7, 0.7))))
     suite_breakdown(ctx)
+    suite_single(ctx)
     pending = []
     hist = {}
     for k in range(n + len(corpus)):
@@ -566,7 +567,61 @@ def suite_breakdown(ctx):
     return bad
 
 
+def suite_single(ctx):
+    """A start field supplied in single precision (complex64 / float32): it
+    is refused, or everything C01 promises holds for what comes back (the
+    source's type included)."""
+    import emg3d
+    from harness import fitasm
+    rng = ctx.nprng('single')
+    bad = []
+    for t in range(8 if ctx.thorough else 4):
+        lap = t % 2 == 1
+        c = dict(gen_cfg(rng, t), shape=(4, 6, 4), zero_source=False,
+                 stretched=True, frequency=-1.0 if lap else 1.0,
+                 src_scale=1.0)
+        grid, model, sf = make_problem(np.random.default_rng(c['seed']), c)
+        start = (rng.standard_normal(sf.field.size)*1e-9).astype(
+            np.float32 if lap else np.complex64)
+        ef = emg3d.Field(grid, start)
+        ssl, cyc = [('bicgstab', 'F'), (False, 'F'), ('cgs', None),
+                    ('bicgstab', 'V')][t % 4]
+        tol = 1e-6
+        try:
+            with warnings.catch_warnings():
+                warnings.simplefilter('ignore')
+                info = emg3d.solve(model, sf, efield=ef, sslsolver=ssl,
+                                   cycle=cyc, tol=tol, maxit=40, verb=-1,
+                                   return_info=True)
+        except (ValueError, TypeError):
+            ctx.count(key=('single', t, 'refused'))
+            continue
+        rin, rbd = fitasm.residual_norm(model, sf, ef)
+        ref = float(np.linalg.norm(sf.field))
+        ctx.count(key=('single', t, info['exit']))
+        if info['exit'] == 0 and (not rin < tol*ref*(1 + 1e-6) or
+                                  ef.field.dtype != sf.field.dtype):
+            bad.append((t, ssl, cyc, rin/ref, str(ef.field.dtype)))
+            ctx.violation(
+                'success-without-convergence',
+                f'supplied start field of dtype {start.dtype} '
+                f'(sslsolver={ssl}, cycle={cyc}): exit 0 '
+                f'"{info["exit_message"]}", the field has dtype '
+                f'{ef.field.dtype} (source: {sf.field.dtype}) and residual '
+                f'{rin/ref:.3e} x |s| (tol {tol:.0e})',
+                {'single_precision_case': t})
+    ctx.oblige('monitor: a single-precision start field is refused or the '
+               'result meets the statement (residual, type of the source)',
+               'monitor', not bad, str(bad[:2]))
+    return bad
+
+
 def replay(ctx, rp):
+    if rp['replay'].get('single_precision_case') is not None:
+        suite_single(ctx)
+        for v in ctx.violations:
+            print('replay:', v['sig'], v['what'])
+        return 1 if ctx.violations else 0
     if rp['replay'].get('stored_input'):
         suite_breakdown(ctx)
         for v in ctx.violations:
